@@ -7,6 +7,20 @@
 
 namespace etl {
 
+namespace detail {
+template <typename T>
+[[nodiscard]] constexpr auto fmin(T x, T y) noexcept -> T
+{
+    if (y != y) {
+        return x;
+    }
+    if (x != x) {
+        return y;
+    }
+    return y < x ? y : x;
+}
+} // namespace detail
+
 /// \ingroup cmath
 /// @{
 
@@ -15,20 +29,20 @@ namespace etl {
 /// chosen)
 ///
 /// https://en.cppreference.com/w/cpp/numeric/math/fmin
-[[nodiscard]] constexpr auto fmin(float x, float y) noexcept -> float { return etl::detail::gcem::min(x, y); }
+[[nodiscard]] constexpr auto fmin(float x, float y) noexcept -> float { return etl::detail::fmin(x, y); }
 
-[[nodiscard]] constexpr auto fminf(float x, float y) noexcept -> float { return etl::detail::gcem::min(x, y); }
+[[nodiscard]] constexpr auto fminf(float x, float y) noexcept -> float { return etl::detail::fmin(x, y); }
 
-[[nodiscard]] constexpr auto fmin(double x, double y) noexcept -> double { return etl::detail::gcem::min(x, y); }
+[[nodiscard]] constexpr auto fmin(double x, double y) noexcept -> double { return etl::detail::fmin(x, y); }
 
 [[nodiscard]] constexpr auto fmin(long double x, long double y) noexcept -> long double
 {
-    return etl::detail::gcem::min(x, y);
+    return etl::detail::fmin(x, y);
 }
 
 [[nodiscard]] constexpr auto fminl(long double x, long double y) noexcept -> long double
 {
-    return etl::detail::gcem::min(x, y);
+    return etl::detail::fmin(x, y);
 }
 
 /// @}
